@@ -16,14 +16,14 @@ CHECKS = {
     "C02": dict(
         level="exploration",
         technique="exhaustive enumeration (unranking) of all ASTs up to a node bound x parenthesisation and spacing variants, parsed by the real tree builder and compared with the generating AST",
-        text="All ASTs with up to 3 (quick) / 4 (thorough) operator nodes over the full operator alphabet and up to 4 / 6 over one representative per precedence class are rendered with minimal, full and redundant parentheses and two spacings; the parsed tree must equal the AST. Covers every ordered pair and triple of operators, which is where precedence/associativity slips live; deeper nestings rely on the class argument.",
+        text="All ASTs with up to 3 (quick) / 4 (thorough) operator nodes over the full operator alphabet and up to 4 / 6 over one representative per precedence class are rendered with minimal, full and redundant parentheses and two spacings; every flat infix sequence of up to 5 / 6 of the 14 binary operators is checked against a precedence-climbing reference; chains, ladders and nestings of up to 129 / 400 operators; the parsed tree must equal the AST. Covers every ordered pair and triple of operators, which is where precedence/associativity slips live; deeper nestings rely on the class argument.",
         note="Trusted: the README precedence table as encoded in the minimal-parentheses renderer (mc/src/refmodel/ast.rs); exclusions exactly as the property's quantifier states.",
         design_ref="DESIGN.md section 4, C02",
     ),
     "C03": dict(
         level="exploration",
         technique="exhaustive enumeration of the complete operator x operand-pool^2 matrix on the real evaluator against an i128/f64 reference table, in two build profiles",
-        text="Every operator is run on every ordered pair of a 76-value edge pool (all six value types; i64 extremes and neighbours, 2^53/2^63 boundaries, signed zeros, subnormals, infinities, NaN, non-ASCII strings, nested/empty tuples) through three routes (variables, literals, op-assign) with overflow checks on and off and compared with an independent reference. Complete for the pool, so any per-operator or per-type-pair slip is found; values outside the pool are not covered.",
+        text="Every operator is run on every ordered pair of a 78-value edge pool (330 values in the thorough tier) (all six value types; i64 extremes and neighbours, 2^53/2^63 boundaries, signed zeros, subnormals, infinities, NaN, non-ASCII strings, nested/empty tuples) through three routes (variables, literals, op-assign) with overflow checks on and off and compared with an independent reference. Complete for the pool, so any per-operator or per-type-pair slip is found; values outside the pool are not covered.",
         note="Trusted: the reference table mc/src/refmodel/ops.rs; Rust's f64 arithmetic and powf (same libm on both sides). Accepted both ways: MIN % -1, int/float ordering beyond 2^53, ==/!= on NaN and signed zero.",
         design_ref="DESIGN.md section 4, C03",
     ),
@@ -44,7 +44,7 @@ CHECKS = {
     "C06": dict(
         level="exploration",
         technique="exhaustive enumeration of strings over small hostile alphabets (quoted texts, raw sources, numeric-alphabet strings, words) and of integer/double pools x renderings x embeddings, against an independent lexer/classifier",
-        text="All texts up to 4/5 characters over a 16-character alphabet quoted and embedded, all raw quote-led sources up to 6/8, all integers below 2^14/2^17 in three spellings plus power boundaries, all strings up to 6/7 characters over the numeric alphabet, ~1500-4500 doubles in up to 9 renderings and 12 embeddings, all words up to 3/4 over 21 characters. Token assembly is character-local, so short exhaustive alphabets reach every branch of it.",
+        text="All texts up to 4/6 characters over a 16-character alphabet quoted and embedded, all raw quote-led sources up to 6/9, all integers below 2^14/2^17 in five spellings plus power boundaries, all strings up to 6/8 characters over the numeric alphabet, ~1500-4500 doubles in up to 11 renderings (incl. 40-digit expansions) and 12 embeddings, all words up to 3/5 over 21 characters, plus literals of n characters (n up to 129/400). Token assembly is character-local, so short exhaustive alphabets reach every branch of it.",
         note="Trusted: mc/src/refmodel/lexer.rs; Rust's str::parse::<f64> as the correctly rounded conversion. Known finding F10 (inf/nan words) is reported as KNOWN-FINDING.",
         design_ref="DESIGN.md section 4, C06",
     ),
@@ -72,7 +72,7 @@ CHECKS = {
     "C10": dict(
         level="exploration",
         technique="exhaustive enumeration of the complete 49-builtin x argument-shape matrix (arity 0..3 over an edge-value pool) against a reference builtin table, in two build profiles",
-        text="Every builtin on Empty, every pool value, every ordered pair of the 76-value pool and every ordered triple of a sub-pool (complete pool^3 in the thorough tier), bit-exact against a reference table written from the README, plus all index pairs of str::substring on non-ASCII subjects with the len/substring consistency oracle.",
+        text="Every builtin on Empty, every pool value, every ordered pair of the 78-value pool (330-value pool in the thorough tier) and every ordered triple of a sub-pool (complete 78^3 in the thorough tier), n-tuples and n-character strings up to n = 129 / 400, bit-exact against a reference table written from the README, plus all index pairs of str::substring on non-ASCII subjects with the len/substring consistency oracle.",
         note="Trusted: mc/src/refmodel/builtins.rs; same libm on both sides. Unclaimed as the property says: shifts outside 0..63, min/max with NaN, Empty needles, byte-vs-character unit of len.",
         design_ref="DESIGN.md section 4, C10",
     ),
@@ -93,7 +93,7 @@ CHECKS = {
     "C13": dict(
         level="model_checking",
         technique="depth-first search over all token-prefix states up to a length over a class-representative alphabet on the real tokenizer/tree builder/evaluator, classified by an independent recursive-descent recogniser",
-        text="Every token sequence up to 7 (quick) / 8 (thorough) tokens over 12 class representatives and up to 4 / 5 over all 34 operator tokens; unbalanced input must be rejected, balanced input never reported unbalanced, ill-formed input must not evaluate successfully in any of 5 generous contexts.",
+        text="Every token sequence up to 7 (quick) / 9 (thorough, 5.7 G states) tokens over 12 class representatives and up to 4 / 5 over all 34 operator tokens, plus 18 families of long malformed inputs; unbalanced input must be rejected, balanced input never reported unbalanced, ill-formed input must not evaluate successfully in any of 5 generous contexts.",
         note="Trusted: mc/src/refmodel/recogniser.rs as the definition of well-formedness; arity-correct trees that merely never evaluate are counted, not reported.",
         design_ref="DESIGN.md section 4, C13",
     ),
